@@ -295,6 +295,15 @@ def _iter_glob_expanded_file_patterns(
             yield filepath_glob, raw_patterns
 
 
+def _as_pattern_list(raw_patterns: typ.Union[str, typ.List[str]]) -> typ.List[str]:
+    # NOTE: a single pattern may be given as a string instead of a list
+    #   (it would otherwise be iterated character by character)
+    if isinstance(raw_patterns, str):
+        return [raw_patterns]
+    else:
+        return raw_patterns
+
+
 def _compile_v1_file_patterns(raw_cfg: RawConfig) -> typ.Iterator[FilePatternsItem]:
     """Create inernal/compiled representation of the file_patterns config field.
 
@@ -307,6 +316,7 @@ def _compile_v1_file_patterns(raw_cfg: RawConfig) -> typ.Iterator[FilePatternsIt
     raw_patterns_by_file: RawPatternsByFile = raw_cfg['file_patterns']
 
     for filepath, raw_patterns in _iter_glob_expanded_file_patterns(raw_patterns_by_file):
+        raw_patterns      = _as_pattern_list(raw_patterns)
         compiled_patterns = v1patterns.compile_patterns(version_pattern, raw_patterns)
         yield filepath, compiled_patterns
 
@@ -320,6 +330,7 @@ def _compile_v2_file_patterns(raw_cfg: RawConfig) -> typ.Iterable[FilePatternsIt
     raw_patterns_by_file: RawPatternsByFile = raw_cfg['file_patterns']
 
     for filepath, raw_patterns in _iter_glob_expanded_file_patterns(raw_patterns_by_file):
+        raw_patterns = _as_pattern_list(raw_patterns)
         for raw_pattern in raw_patterns:
             if raw_pattern.startswith("["):
                 errmsg = (
